@@ -284,3 +284,208 @@ class CancelEvent:
 
 FS_ENV = dict(os=OsStub(), Path=Path, open=v_open, bytearray=ByteBuf, memoryview=MemView,
               hashlib=HashlibStub)
+
+
+# --------------------------------------------------------------------------- path joining
+
+
+def _join_t(a: tm.T, b: tm.T) -> tm.T:
+    """posixpath.join(a, b) for two components (assumed contract, validated bounded in C20)."""
+    sl = tm.mk_str("/")
+    return tm.Ite(tm.PrefixOf(sl, b), b,
+                  tm.Ite(tm.Or(tm.Eq(a, tm.mk_str("")), tm.SuffixOf(sl, a)), tm.Concat(a, b),
+                         tm.Concat(a, sl, b)))
+
+
+def _sympath_truediv(self, other):
+    return SymPath(_join_t(self.t, S(other)))
+
+
+def _sympath_rtruediv(self, other):
+    return SymPath(_join_t(S(other), self.t))
+
+
+SymPath.__truediv__ = _sympath_truediv
+SymPath.__rtruediv__ = _sympath_rtruediv
+trusted("path.Path.__truediv__ is posixpath.join: b if b is absolute, a+b if a is empty or ends with '/', else a+'/'+b")
+
+
+# --------------------------------------------------------------------------- database stub
+
+
+from vc import sqlfront  # noqa: E402
+
+
+class Cursor:
+    def __init__(self, db, ordinal, sql, args, rowspec, facts=None, always_row=False):
+        self.db, self.ordinal, self.sql, self.args, self.rowspec, self.facts = db, ordinal, sql, args, rowspec, facts
+        self.always_row = always_row
+
+    def _row(self, name):
+        if self.rowspec is None:
+            raise Unsupported(f"rows of query #{self.ordinal} are used but no row type is declared: {self.sql[:80]}")
+        row = self.rowspec.fresh(name)
+        if self.facts is not None:
+            cur().assume(self.facts(row, self.args))
+        return row
+
+    def fetchone(self):
+        c = cur()
+        n = c.fresh_name(f"q{self.ordinal}.row")
+        isn = c.fresh(n + ".none", BOOL)
+        c.event("sql.fetchone", ordinal=self.ordinal, cursor=self, isnone=isn)
+        if self.always_row:
+            c.pc.append(tm.Not(isn))  # an aggregate / EXISTS query always yields one row
+            return self._row(n)
+        if c.fork(isn):
+            return None
+        return self._row(n)
+
+    def fetchall(self):
+        return self.__symseq__()
+
+    def __symseq__(self):
+        c = cur()
+        n = c.fresh_name(f"q{self.ordinal}.rows")
+        if self.rowspec is None:
+            raise Unsupported(f"rows of query #{self.ordinal} are iterated but no row type is declared: {self.sql[:80]}")
+        q = ty.SeqOf(self.rowspec).fresh(n)
+        if self.facts is not None:
+            inner = q.elem
+            facts, args = self.facts, self.args
+
+            def elem(i):
+                row = inner(i)
+                cur().assume(facts(row, args))
+                return row
+
+            q.elem = elem
+        q.cursor = self
+        return q
+
+    def __iter__(self):
+        raise Unsupported("native iteration over a query result (loop transform missing)")
+
+
+class DbStub:
+    """Stands for `DBSession`/`sqlite3.Connection`: every statement is an effect `sql`.
+
+    `queries`: list of (normalised SQL prefix, row Spec[, facts(row, args)]) giving the row type of
+    SELECT statements the function consumes."""
+
+    def __init__(self, name="db", queries=()):
+        self.name = name
+        self.queries = [(sqlfront.normalize(q[0]), *q[1:]) for q in queries]
+        self.count = 0
+        self.version = 0  # bumped by every statement that may write; ghost facts are per version
+
+    def fact(self, name, *args, sort=None):
+        """Ghost: the value of a stored attribute in the current database version, e.g.
+        fact('detached', i).  Facts about one version say nothing about the next."""
+        c = cur()
+        ts = [sym.I(a) if not isinstance(a, (SymStr, str)) else S(a) for a in args]
+        f = c.decls.fun(f"db.{name}.v{self.version}", [t.sort for t in ts], sort or BOOL)
+        return f(*ts)
+
+    def bump(self):
+        self.version += 1
+
+    def execute(self, sql, args=()):
+        c = cur()
+        if not isinstance(sql, str):
+            raise Unsupported("SQL text is not a concrete string")
+        k = self.count
+        self.count += 1
+        rowspec = facts = None
+        always = False
+        norm = sqlfront.normalize(sql)
+        for q in self.queries:
+            if norm.startswith(q[0]):
+                rowspec = q[1]
+                facts = q[2] if len(q) > 2 else None
+                always = norm.startswith(("SELECT EXISTS", "SELECT COUNT", "SELECT count"))
+                break
+        if not norm.upper().startswith(("SELECT", "WITH", "EXPLAIN", "PRAGMA")) or \
+                any(w in norm.upper().split() for w in ("UPDATE", "INSERT", "DELETE", "REPLACE")):
+            self.bump()
+        c.event("sql", sql=sql, norm=norm, args=args, ordinal=k, db=self)
+        return Cursor(self, k, sql, args, rowspec, facts, always)
+
+    def executemany(self, sql, seq):
+        c = cur()
+        k = self.count
+        self.count += 1
+        self.bump()
+        c.event("sql.many", sql=sql, norm=sqlfront.normalize(sql), args=seq, ordinal=k, db=self)
+        return Cursor(self, k, sql, seq, None)
+
+    def __aenter__(self):
+        cur().event("tx.begin", db=self)
+        return self
+
+    def __aexit__(self, et, ev, tb):
+        cur().event("tx.end", db=self, exc=et)
+        return False
+
+    def __havoc__(self, label):
+        pass
+
+    def __snapshot__(self):
+        return self
+
+
+trusted("sqlite3: a statement's effect and result are those documented by SQLite for the fragment of "
+        "DESIGN 3.6; each execute() is recorded as an effect with its text and bound arguments")
+
+
+# --------------------------------------------------------------------------- rows satisfy the WHERE clause
+
+SQL_TEXT_COLUMNS = {"kind", "label", "path", "upper", "name", "hash", "pattern", "description"}
+
+
+def where_holds(sql, args, cols):
+    """Fact assumed about a returned row: the statement's top-level WHERE clause is true for it.
+
+    cols: column name -> value of the row (proxy); other columns are unconstrained unknowns."""
+    c = cur()
+    e = sqlfront.where_of(sql)
+    if e is None:
+        return True
+
+    def column(alias, name):
+        if name in cols:
+            v = cols[name]
+            if isinstance(v, tm.T) and v.sort == BOOL:
+                return sqlfront.Val(v, "bool")
+            if isinstance(v, (SymStr, str)):
+                return sqlfront.Val(S(v), "str")
+            return sqlfront.Val(sym.I(v), "int")
+        n = c.fresh_name(f"col.{alias or ''}.{name}")
+        if name in SQL_TEXT_COLUMNS:
+            return sqlfront.Val(c.fresh(n, STR), "str")
+        return sqlfront.Val(c.fresh(n, INT), "int")
+
+    def param(idx):
+        v = args[idx]
+        if isinstance(v, (SymStr, str)):
+            return sqlfront.Val(S(v), "str")
+        return sqlfront.Val(sym.I(v), "int")
+
+    tr = sqlfront.Translator(c.decls, column, param)
+    return wrap_bool(tr.holds(e))
+
+
+trusted("sqlite3: a row returned by SELECT ... WHERE w satisfies w (three-valued logic as in DESIGN 3.6)")
+
+
+class _PathStr(ty._Str):
+    """A `path.Path` value (a str with file-system methods)."""
+
+    def fresh(self, name):
+        return SymPath(cur().fresh(name, STR))
+
+    def wrap(self, t):
+        return SymPath(t)
+
+
+PathStr = _PathStr()
